@@ -47,7 +47,7 @@ TRUSTED = ["harness/snapshot.py (structural snapshot through public accessors) a
 REQUIRED_BUCKETS = ["role:static", "role:dynamic", "role:environment", "role:phantom", "pred:trajectory", "pred:set",
                     "shape:rect", "shape:circ", "shape:poly", "shape:group", "state:interval", "state:region", "state:custom",
                     "init:no-acceleration", "sign:virtual", "signal:horn", "goal:lanelets", "goal:shape", "light:inactive",
-                    "stopline", "intersection", "precision:1", "precision:12", "xsd-valid", "3d", "witness:initial-extra", "traj:gaps", "traj:consecutive",
+                    "stopline", "intersection", "precision:1", "precision:12", "xsd-valid", "3d", "witness:initial-extra", "traj:gaps", "traj:consecutive", "value:int-at-decimal-site",
                     # the write / read plan: entry points, flags, reuse, failing first call
                     "plan:plain", "w-entry:xml", "w-method:scenario_only", "w-validity:True", "w-filename:path", "w-filename:default",
                     "w-overrides:yes", "w-reuse:twice", "w-reuse:fail-first", "w-reuse:other-writer-after", "w-reuse:existing-file",
@@ -263,6 +263,9 @@ def _class_of(path, kind):
 def tags_of(ctx, spec, d):
     t = ctx.tag
     t(f"precision:{d}")
+    loc = spec.get("location") or {}
+    if any(isinstance(v, int) and not isinstance(v, bool) for v in (spec["dt"], loc.get("lat"), loc.get("lon"))):
+        t("value:int-at-decimal-site")
     plan = spec.get("plan")
     if plan:
         W, Rd, B = plan["writer"], plan["reader"], plan["build"]
@@ -397,6 +400,14 @@ class Reals:
         self.seen[s] = v
         return s
 
+    def raw(self, x):
+        """the repr at a site where the writer calls decimal_to_str(x) on the value AS GIVEN (no np.float64 wrapping): location,
+        geo transformation, time step size, rectangle length / width — an int is written as an int ("90", not "90.0")"""
+        import numpy as np
+        s = str(x)
+        self.seen[s] = np.float64(x)
+        return s
+
     def fix(self, d):
         """float_to_str's exponent branch: format(f, ".<d>f")"""
         return [[s, format(v, ".{}f".format(d))] for s, v in self.seen.items() if "e" in s]
@@ -414,7 +425,7 @@ def m_pt(R, p):
 def m_shape1(R, s):
     from commonroad.geometry.shape import Circle, Polygon, Rectangle
     if isinstance(s, Rectangle):
-        return {"rect": {"l": R(s.length), "w": R(s.width), "o": R(s.orientation), "c": m_pt(R, s.center)}}
+        return {"rect": {"l": R.raw(s.length), "w": R.raw(s.width), "o": R(s.orientation), "c": m_pt(R, s.center)}}
     if isinstance(s, Circle):
         return {"circ": {"r": R(s.radius), "c": m_pt(R, s.center)}}
     if isinstance(s, Polygon):
@@ -587,18 +598,18 @@ def m_location(R, loc):
     if loc is None:
         return None
     g, e = loc.geo_transformation, loc.environment
-    return {"geoNameId": int(loc.geo_name_id), "lat": R(loc.gps_latitude), "lon": R(loc.gps_longitude),
+    return {"geoNameId": int(loc.geo_name_id), "lat": R.raw(loc.gps_latitude), "lon": R.raw(loc.gps_longitude),
             "geo": None if g is None else {
-                "ref": g.geo_reference,
-                "add": None if g.x_translation is None else {"x": R(g.x_translation), "y": R(g.y_translation), "rot": R(g.z_rotation),
-                                                              "scaling": R(g.scaling)}},
+                "ref": g.geo_reference or "",
+                "add": None if g.x_translation is None else {"x": R.raw(g.x_translation), "y": R.raw(g.y_translation), "rot": R.raw(g.z_rotation),
+                                                              "scaling": R.raw(g.scaling)}},
             "env": None if e is None else {"hours": int(e.time.hours), "minutes": int(e.time.minutes), "timeOfDay": e.time_of_day.value,
                                             "weather": e.weather.value, "underground": e.underground.value}}
 
 
 def m_file(R, sc, pps, tags, eff=None):
     eff = eff or {"author": sc.author, "affiliation": sc.affiliation, "source": sc.source, "location_obj": sc.location}
-    return {"header": {"dt": R(sc.dt), "author": eff["author"], "affiliation": eff["affiliation"], "source": eff["source"],
+    return {"header": {"dt": R.raw(sc.dt), "author": eff["author"], "affiliation": eff["affiliation"], "source": eff["source"],
                        "benchmarkId": str(sc.scenario_id)},
             "location": m_location(R, eff["location_obj"]), "tags": tags, "body": m_doc(R, sc, pps)}
 
